@@ -158,9 +158,10 @@ def mvccStep (d : Db) (line : String) : Db × String :=
     match d.lsm.compact cd dts d.opts.numKeep d.now with
     | some l =>
       -- the tables taken must be ones the production pickers can take (Picker.lean)
-      match choiceProblem d.lsm cd with
-      | none => ({ d with lsm := l }, s!"ok discard={dts} overlap={if ov then 1 else 0}")
-      | some msg => ({ d with lsm := l }, s!"invalid-choice {msg}")
+      match choiceProblem d.lsm cd, (if nextL == 0 then none else cutProblem cd.outSizes out) with
+      | none, none => ({ d with lsm := l }, s!"ok discard={dts} overlap={if ov then 1 else 0}")
+      | some msg, _ => ({ d with lsm := l }, s!"invalid-choice {msg}")
+      | none, some k => ({ d with lsm := l }, s!"invalid-cut user key {toHex k} is spread over two output tables")
     | none =>
       (d, s!"mismatch discard={dts} overlap={ov} model-out={out.length} " ++
           String.intercalate "," (out.map fmtEnt))
